@@ -32,6 +32,7 @@ PROPERTY Prop_Ttl
 PROPERTY Prop_Books
 PROPERTY Prop_Isolation
 PROPERTY Prop_Scan
+PROPERTY Prop_NoReverted
 PROPERTY Prop_RevertedRestored
 PROPERTY EmitEdges
 CONSTRAINT Bound
